@@ -31,7 +31,6 @@ func c03Opts(targets []string) *GenOpts {
 		AvoidSiblingPrefix:       vstat.IsListed("F-textual-prefix"),
 		AvoidAncestorDescendant:  vstat.IsListed("F-ancestor-delete-order"),
 		AvoidSamePathDeleteWrite: true,
-		AvoidWriteUnderDeleted:   vstat.IsListed("F-zombie-tombstone"),
 	}
 }
 
@@ -118,6 +117,93 @@ func submitAndSettle(w *World, name string, spec SetSpec) (*Call, error) {
 	}
 	w.AwaitCalls(10 * time.Second)
 	return call, nil
+}
+
+// zombieTracker remembers which nodes were deleted by which request and which
+// leaves were written by which request, to recognise finding F-zombie-tombstone:
+// a leaf written (by a LATER request) beneath a node that an earlier request
+// deleted is dropped from the stored configuration by the next commit on that
+// target, because the stale tombstone stays in the store.
+type zombieTracker struct {
+	deleted map[string][]delRec       // target -> deleted nodes
+	written map[string]map[string]int // target -> leaf path text -> request number of the last write
+}
+
+type delRec struct {
+	node model.Path
+	req  int
+}
+
+func newZombieTracker() *zombieTracker {
+	return &zombieTracker{deleted: map[string][]delRec{}, written: map[string]map[string]int{}}
+}
+
+func (z *zombieTracker) note(req int, ops []model.Op) {
+	for _, op := range ops {
+		if op.Kind == "delete" {
+			z.deleted[op.Target] = append(z.deleted[op.Target], delRec{EffectiveDelete(op.Path), req})
+		} else {
+			if z.written[op.Target] == nil {
+				z.written[op.Target] = map[string]int{}
+			}
+			z.written[op.Target][op.Path.String()] = req
+		}
+	}
+}
+
+// exposed reports whether leaf l of target t sits beneath a node deleted by a
+// request earlier than the one that last wrote l.
+func (z *zombieTracker) exposed(t string, l model.Path) bool {
+	wr, ok := z.written[t][l.String()]
+	if !ok {
+		return false
+	}
+	for _, d := range z.deleted[t] {
+		if d.req < wr && model.Covers(d.node, l) && len(d.node) < len(l) {
+			return true
+		}
+	}
+	return false
+}
+
+// reconcileKnown looks at the full configuration of target t: if it differs
+// from the reference ONLY by missing zombie-exposed leaves and the finding is
+// listed, the finding is recorded and the reference is re-synchronised with the
+// code so that the rest of the history is still checked. Anything else is left
+// for checkGet to report.
+func reconcileKnown(w *World, x *vstat.Ctx, ref *Ref, z *zombieTracker, t string) {
+	if !vstat.IsKnown("C03", "F-zombie-tombstone") || w.Config(t) == nil {
+		return
+	}
+	got, _, err := w.GetProto(t, nil)
+	if err != nil {
+		return
+	}
+	want := ref.Stored[t]
+	var missing []string
+	for k, l := range want {
+		if _, ok := got[k]; !ok {
+			if !z.exposed(t, l.Path) {
+				return
+			}
+			missing = append(missing, k)
+		} else if got[k] != l.Value.Key() {
+			return
+		}
+	}
+	for k := range got {
+		if _, ok := want[k]; !ok {
+			return
+		}
+	}
+	if len(missing) == 0 {
+		return
+	}
+	x.Known("F-zombie-tombstone", "a value written after one of its ancestors was deleted is dropped from the stored configuration by the next commit on that target (the stale tombstone stays in the store and prunes it)")
+	x.Logf("   known finding F-zombie-tombstone: %s lost %v; reference re-synchronised", t, missing)
+	for _, k := range missing {
+		delete(want, k)
+	}
 }
 
 // checkGet compares one Get with the reference configuration.
@@ -212,6 +298,7 @@ func runC03(c C03Case, x *vstat.Ctx) error {
 		x.Excluded("F-ancestor-delete-order")
 	}
 	deletedAncestors := map[string][]model.Path{}
+	z := newZombieTracker()
 	var sample []string
 	for i, st := range c.Steps {
 		x.Logf("set %d: %s", i+1, st.Set.Describe())
@@ -234,6 +321,12 @@ func runC03(c C03Case, x *vstat.Ctx) error {
 		}
 		rtx := ref.Change(st.Set.Resolved())
 		_ = logBefore
+		if rtx.Outcome == "committed" {
+			z.note(i+1, st.Set.Resolved())
+		}
+		for _, t := range c.Targets {
+			reconcileKnown(w, x, ref, z, t)
+		}
 		switch rtx.Outcome {
 		case "committed":
 			if call.Err != nil {
